@@ -27,6 +27,9 @@ soundness everywhere):
   * probes are only placed where no parameter is in scope (what a parameter holds *inside* the
     function is the business of the dynamic parameter search, property C16);
   * attributes are only written through `self` in `__init__`; derived classes define no `__init__`;
+  * inside a for loop that may run zero times (over a generator whose yields are conditional)
+    nothing bound before the loop is re-bound (jedi takes the suite of a `for` for certainly
+    executed: known finding, reproducer in the corpus);
   * a name re-assigned in a straight line inside a nested suite carries no exactness claim once the
     suite is left (jedi keeps reporting the shadowed definition after if/while/try suites: known
     finding, reproducer in corpus/C02/flow-regressions.json);
@@ -158,6 +161,7 @@ class Scope:
         self.vars = {}
         self.loops = []                   # open loop ids, innermost last
         self.block = 0
+        self.locked = set()               # names that may not be re-assigned in the current suite
 
 
 class Prog:
@@ -501,10 +505,13 @@ class Prog:
         """n = <expr> ; fresh name or (sometimes) a re-assignment that is not loop-carried"""
         e, x, pv = self.expr(sc)
         cands = [(n, v) for n, v in sc.vars.items()
-                 if v.kind == 'I' and not v.frozen and not (v.reads & set(sc.loops))]
+                 if v.kind == 'I' and not v.frozen and not (v.reads & set(sc.loops)) and n not in sc.locked]
         if cands and self.chance(0.2):
             n, v = self.rng.choice(cands)
-            if not (sc.loops and re.search(r'\b%s\b' % n, e)):      # `n = f(n)` in a loop is loop-carried
+            mentions = re.search(r'\b%s\b' % n, e) is not None
+            # `n = f(n)` in a loop is loop-carried; `n = (lambda b=n: b)()` - the old binding read
+            # through a lambda default of the re-binding statement - is a known finding
+            if not (mentions and (sc.loops or 'lambda' in e)):
                 self.emit(ind, '%s = %s' % (n, e))
                 v.x = x if (v.block == sc.block) else None
                 if v.block == sc.block:
@@ -780,8 +787,14 @@ class Prog:
         if force and not sc.has_params:
             def must():
                 self.probe(sc, ind + 1, only=v)
+        saved = set(sc.locked)
+        if not certain:
+            # the loop may run zero times: jedi takes a for suite for certainly executed (known
+            # finding), so nothing bound before the loop is re-bound inside it
+            sc.locked |= set(sc.vars)
         self.block(sc, ind + 1, depth + 1, r.randint(0 if force else 1, 3 if force else 4), allow_yield,
                    export=certain, must=must)
+        sc.locked = saved
         self.close_loop(sc, lid)
         if not certain:
             for nm in bound:
